@@ -317,3 +317,18 @@ Proof.
   rewrite (decode_shape _ _ _ _ _ _ _ _ _ (to_be_length 2 _) (to_be_length 2 _) LB (to_be_length 4 _)). cbn [v_b6 v_b10 v_intervals].
   repeat split; reflexivity.
 Qed.
+
+(* ---- integer streams: where the metadata query reads the real interval count ---- *)
+Require Import SZV.Gen.SrcFacts.
+Definition fwidth (st:Z) (f:Z) : Z := if f =? -1 then st else if f =? -2 then src_MetaDataByteLength else f.
+Definition fsum (st:Z) (l:list Z) : Z := fold_right (fun f a => fwidth st f + a) 0 l.
+(* the offset used by SZ_getMetadata for an integer stream is the end of the fields that convertTDPStoBytes_int writes before the
+   coded type array, plus one word (encode_withTree stores the node count first and the real number of intervals second), for both
+   size types; and the field list is the documented one *)
+Definition meta_int_offset_checks : bool :=
+  forallb (fun st => fsum st src_meta_int_offset_terms =? fsum st src_int_stream_fields + 4) [4; 8]
+  && forallb (fun f => (f =? -1) || (f =? -2) || (0 <? f)) src_int_stream_fields
+  && (if list_eq_dec Z.eq_dec src_int_stream_fields [3; 1; -2; 1; -1; 4; 4; 8; 8; -1; -1; -1] then true else false)
+  && src_huffman_count_is_second_word.
+Lemma meta_int_offset_ok : meta_int_offset_checks = true.
+Proof. vm_compute. reflexivity. Qed.
